@@ -1,6 +1,7 @@
 (* C06 — flat-integer interface of the model for the correspondence check.
-   input : [ns; NB; P; ns2add; append (0/1); pre_len; nc_out; nbytes; ncv; rms_offset; time_offset] ++ probes
-           (pre_len: bytes of the file found at output_file before the call)
+   input : [ns; NB; P; ns2add; append (0/1); pre_len; nc_out; nbytes; ncv; pre_rms; pre_time] ++ probes
+           (pre_len / pre_rms / pre_time: bytes of the files found at output_file / ap_rms.bin / ap_time.bin
+            before the call)
            (probes: sample indices in [0, ns) at which the saturation bookkeeping is reported)
            (SAMPLES_TAPER is the source's constant 1024)
    output: nbatches :: file_end :: rms_end :: time_end
@@ -37,6 +38,10 @@ Definition run (inp : list Z) : list Z :=
   match inp with
   | ns :: NB :: P :: ns2add :: app :: pre :: ncout :: nbytes :: ncv :: roff :: toff :: probes =>
       let '(kept, offset) := start_state (app =? 1) pre in
+      (* rms_offset / time_offset: sizes of ap_rms.bin / ap_time.bin when appending, else the files are
+         truncated (open(..., "wb").close()); roff / toff are the sizes found before the call *)
+      let roff := snd (start_state (app =? 1) roff) in
+      let toff := snd (start_state (app =? 1) toff) in
       let c := mkCfg SAMPLES_TAPER ns NB P ns2add offset ncout nbytes ncv roff toff in
       nbatches c
       :: final_length c kept
